@@ -37,6 +37,8 @@ ASSUMPTIONS = c08.ASSUMPTIONS + ["what a new session can change about equal inpu
 RULE = ("generated acyclic values (depth<=4, width<=4; incl. sets/dicts of str/int/bytes/float/tuple/frozenset/path "
         "keys, frozensets of frozensets, numpy arrays, objects) each with a twin built in shuffled insertion order, and "
         "arrays held in six memory layouts (C, Fortran, transposed, strided, strided+transposed, negative stride); "
+        "file inputs whose stored 16-byte digest starts / ends with each ASCII whitespace byte and NUL, hashed first "
+        "and read back from the persistent hash cache in two fresh interpreters; "
         "hash_function(value) and Ident(x=value)._checksum computed in one fresh interpreter per PYTHONHASHSEED, also "
         "after a cloudpickle round trip; distinct = distinct value tree, non-trivial = contains a set or dict with >= 2 "
         "elements")
@@ -190,6 +192,76 @@ def roots_and_workers(ctx, trees):
     return n, bad
 
 
+WS = (0x09, 0x0a, 0x0b, 0x0c, 0x0d, 0x20)
+
+
+def file_sessions(ctx, out, dist):
+    """File inputs: the identity computed first (content hashed) and the identity read back from the persistent
+    hash cache, in the same and in a second fresh interpreter, must coincide.  Contents are searched so that the
+    16-byte digest stored in the cache starts / ends with every ASCII whitespace byte (plus NUL and random ones)."""
+    from fileformats.generic import File
+    from pydra.utils.hash import hash_object, Cache
+    rng = ctx.rng
+    tmp = tempfile.mkdtemp(prefix="c07f-", dir="/tmp")
+    repo = os.environ.get("VERIF_REPO", "/repo")
+    try:
+        os.makedirs(os.path.join(tmp, "search-cache"))
+        os.makedirs(os.path.join(tmp, "hash-cache"))
+        want = {("first", b) for b in WS + (0,)} | {("last", b) for b in WS + (0,)}
+        chosen, edge = [], {}
+        fdir = os.path.join(tmp, "files")
+        os.makedirs(fdir)
+        start = rng.randrange(10 ** 6)
+        tries = ctx.budget(2500, 6000)
+        for i in range(tries):
+            content = "content %d\n" % (start + i)
+            path = os.path.join(fdir, "f%d.txt" % i)
+            with open(path, "w") as f:
+                f.write(content)
+            d = hash_object(File(path), cache=Cache(persistent=os.path.join(tmp, "search-cache")))
+            hit = {("first", d[0]), ("last", d[-1])} & want
+            if hit or (len(chosen) < 40 and i % 50 == 0):
+                want -= hit
+                chosen.append({"key": str(i), "path": path, "content": content})
+                edge[str(i)] = "%02x..%02x" % (d[0], d[-1])
+            else:
+                os.unlink(path)
+            if not want and len(chosen) >= 20:
+                break
+        dist["file_contents_searched"] = i + 1
+        dist["file_inputs"] = len(chosen)
+        dist["file_digest_edges_not_found"] = sorted("%s:%02x" % w for w in want)
+        sessions = []
+        for sess, seed in (("first", 0), ("second", 1)):
+            inp, outp = os.path.join(tmp, "in_%s.json" % sess), os.path.join(tmp, "out_%s.json" % sess)
+            with open(inp, "w") as f:
+                json.dump({"items": chosen}, f)
+            env = dict(os.environ, PYTHONHASHSEED=str(seed), PYTHONPATH="%s:%s" % (coqio.VERIF, repo), NO_ET="1",
+                       PYTHONDONTWRITEBYTECODE="1", PYDRA_HASH_CACHE=os.path.join(tmp, "hash-cache"))
+            p = subprocess.run(["/venv/bin/python", "-m", "harness.lib.hashfileworker", inp, outp], env=env,
+                               cwd=coqio.VERIF, stdout=subprocess.PIPE, stderr=subprocess.STDOUT, text=True, timeout=900)
+            if p.returncode != 0:
+                raise RuntimeError("file worker failed: %s" % p.stdout[-2000:])
+            sessions.append({r["key"]: r for r in json.load(open(outp))["results"]})
+        for c in chosen:
+            r1, r2 = sessions[0][c["key"]], sessions[1][c["key"]]
+            out.evaluations += 10
+            obs = {"digest_first..last_byte": edge[c["key"]], "session1": r1, "session2": r2}
+            vals_h = set((r1.get("hash") or []) + (r2.get("hash") or []))
+            vals_c = set((r1.get("checksum") or []) + (r2.get("checksum") or []))
+            ok = ("error" not in r1 and "error" not in r2 and len(vals_h) == 1 and len(vals_c) == 1
+                  and r1["in_list"] == r2["in_list"])
+            if not ok:
+                out.failures.append(Failure(
+                    case={"name": "file", "file_name": os.path.basename(c["path"]), "content": c["content"]},
+                    observed=obs, expected="one hash and one checksum: first computation = read-back from the "
+                                           "persistent hash cache, in both sessions",
+                    note="file input: identity differs between first computation and read-back / between sessions",
+                    kind="spec"))
+    finally:
+        shutil.rmtree(tmp, ignore_errors=True)
+
+
 def run(ctx):
     import time
     t0 = time.time()
@@ -252,6 +324,7 @@ def run(ctx):
                               "checksum": cs, "hash": r["hash"], "fields": r["fields"]})
     out.distinct_nontrivial = nontriv
     out.traces_validated = len(cases)
+    file_sessions(ctx, out, dist)
     nroot, badroot = roots_and_workers(ctx, [g["variants"][0] for g in groups[:ctx.budget(4, 20)]])
     dist["real_runs_two_roots_two_workers"] = nroot
     for b in badroot:
@@ -274,8 +347,33 @@ def run(ctx):
     return out
 
 
+def replay_file(ctx, c):
+    tmp = tempfile.mkdtemp(prefix="c07f-", dir="/tmp")
+    repo = os.environ.get("VERIF_REPO", "/repo")
+    try:
+        path = os.path.join(tmp, c["file_name"])
+        with open(path, "w") as f:
+            f.write(c["content"])
+        os.makedirs(os.path.join(tmp, "hash-cache"))
+        for sess, seed in (("first", 0), ("second", 1)):
+            inp, outp = os.path.join(tmp, "in.json"), os.path.join(tmp, "out.json")
+            with open(inp, "w") as f:
+                json.dump({"items": [{"key": "0", "path": path}]}, f)
+            env = dict(os.environ, PYTHONHASHSEED=str(seed), PYTHONPATH="%s:%s" % (coqio.VERIF, repo), NO_ET="1",
+                       PYDRA_HASH_CACHE=os.path.join(tmp, "hash-cache"))
+            subprocess.run(["/venv/bin/python", "-m", "harness.lib.hashfileworker", inp, outp], env=env,
+                           cwd=coqio.VERIF, check=True, timeout=600)
+            print("implementation, %s session [first call, second call]:" % sess, json.load(open(outp))["results"][0])
+        print("spec: one hash and one checksum in all four calls (first computation = read-back from the persistent "
+              "hash cache); file hashing itself is modelled in C09, not here")
+    finally:
+        shutil.rmtree(tmp, ignore_errors=True)
+
+
 def replay(ctx, payload):
     c = payload["case"]
+    if c.get("name") == "file":
+        return replay_file(ctx, c)
     seeds = c.get("seeds") or [0, 1, 2, 3]
     items = [{"key": "0.%d" % i, "tree": t, "model": False} for i, t in enumerate(c["variants"])]
     res = run_workers(ctx, items, seeds)
